@@ -15,8 +15,8 @@ CHECKS = {
    note="Trusts: the rl world (DESIGN §4). 'The cleanup period' is the longer of the two shipped mechanisms. Loss of records around a leader change is outside the live-instance clause as formulated (the instance must be known to the current leader)."),
  "C13": dict(design="§C13", technique="deterministic simulation with fault injection: real limiter replicas with real lease election under API cuts, crashes, restarts and partitions; RPCs sent to leaders and non-leaders; leader guard judged against each replica's own elector view at the boundaries around every call",
    note="Trusts: the rl world (DESIGN §4). No unique-leader assumption (lease semantics). The shard function's range/determinism over all inputs is only sampled: that part is a pure function."),
- "C07": dict(design="§C07", technique="deterministic simulation: real limiter replicas (lease election, informer-driven limit changes, real handler chain) driven by seeded sequences of honest instance reports; recorded quotas read back through the server's API after every answer",
-   note="Trusts: the rl world (DESIGN §4): replicas and gateway client sets run shipped code over simnet/simapi; instances' reporting logic is synthetic but honest as defined in the rule. Sequential reports in this profile; overlapping reports are explored by the c07-overlap profile when present."),
+ "C07": dict(design="§C07", technique="deterministic simulation: real limiter replicas (lease election, informer-driven limit changes, real handler chain) driven by seeded sequences of honest instance reports; recorded quotas read back through the server's API after every answer; overlap profile: concurrent reports run as sim threads through the yield-instrumented UpdateRateLimitConditionStatus under seeded statement-level schedules",
+   note="Trusts: the rl world (DESIGN §4): replicas and gateway client sets run shipped code over simnet/simapi; instances' reporting logic is synthetic but honest as defined in the rule. Profile c07-sequences issues reports one at a time; profile c07o-overlap overlaps them at statement granularity (go/ast yields in ratelimter.go, cooperative locks)."),
  "C09": dict(design="§C09", technique="deterministic simulation with fault injection: the real gateway limiter stack against a byzantine scripted limiter server over a simulated network (readiness flaps, leader unknown, partitions, arbitrary int32 answers), admissions attributed to limiter objects; bounded-liveness clause after faults stop",
    note="Trusts: the rlstub world (DESIGN §4): real clientsets/UpstreamLimiter/reconcile/global counter/wrappers; the server is a script because the property quantifies over whatever it answers. Known finding F-C09-1 (two limiter objects) is listed in known_findings.json."),
  "C16": dict(design="§C16", technique="deterministic simulation: seeded mutation of valid objects through the real admission plugin, then the real apply pipeline (store, informer, controller goroutine, ClusterInfo, limiter store) with panic interception; twin comparison for updates",
